@@ -51,7 +51,7 @@ def c08_tier(tier, rnd):
     if tier == "quick":
         return {"shape_bounds": (3, 2, 9), "big": (),
                 "mc_consts": {"Caps1": [0, 1], "MaxItems1": 2, "CapsN": [0, 1], "MaxItemsN": 2, "MaxItems3": 1, "ErrItems1": True, "ErrItemsN": False},
-                "mc_extra": 4, "mc_extra_nodes": 6, "mc_timeout": 150, "seq_shapes": 12, "seq_num": 250, "conc": 400, "race": 150,
+                "mc_extra": 10, "mc_extra_nodes": 6, "mc_timeout": 150, "seq_shapes": 12, "seq_num": 250, "conc": 400, "race": 150,
                 "repro": 20, "repro_cases": 8, "max_rej": 3, "mc_sim": None}
     return {"shape_bounds": (3, 2, 9), "big": (6,),
             "mc_consts": {"Caps1": [0, 1, 2], "MaxItems1": 3, "CapsN": [0, 1], "MaxItemsN": 2, "MaxItems3": 2, "ErrItems1": True, "ErrItemsN": False},
@@ -237,7 +237,7 @@ def c08(tier, repo=None):
 
 def c19_tier(tier):
     if tier == "quick":
-        return {"gens": [("dag", 3, 6), ("pregel", 3, 6), ("wf", 3, 6)], "per_mode": 170, "sim": [], "mc_shapes": 8, "mc_timeout": 150}
+        return {"gens": [("dag", 3, 6), ("pregel", 3, 6), ("wf", 3, 6)], "per_mode": 400, "sim": [], "mc_shapes": 5, "mc_timeout": 170}
     return {"gens": [("dag", 3, 6), ("pregel", 3, 6), ("wf", 3, 6)], "per_mode": 1300,
             "sim": [("dag", 4, 8), ("pregel", 4, 8), ("wf", 4, 8)], "mc_shapes": 40, "mc_timeout": 1200}
 
@@ -254,8 +254,7 @@ def classify19(sc, reason, obs):
     frame = frame.replace("compose.vflProduce", "producer").replace("compose.vflTransform", "producer")
     if sc["mode"] == "wf" and sc["branch"] and sc["branch"][0]["from"] in blocked:
         b = sc["branch"][0]
-        if True:
-            return "%s:%s/wf-branch-target-also-data-successor" % (reason, frame)
+        return "%s:%s/%s" % (reason, frame, "wf-branch-target-also-data-successor" if b.get("bdata") else "wf-branch-routed-copy-without-data-successor")
     return "%s:%s/%s%s" % (reason, frame, sc["mode"], "+branch" if sc["branch"] else "")
 
 
